@@ -1449,6 +1449,12 @@ def getattr_(I, st, v, attr, node):
             if attr == "ndim":
                 return [(st, IntN(2))]
             return [(st, FunV("libbound", selfv=v, name="ndarray2." + attr))]
+    if isinstance(v, FunV) and v.kind == "super":
+        m = I.modules.find_method(v.parent, attr)
+        if m is None:
+            return [(st, Exc("AttributeError", f"super object has no attribute {attr}", I.where(node)))]
+        fdef, modname, q = m
+        return [(st, FunV("bound", node=fdef, modname=modname, name=q + "." + attr, clsqual=q, selfv=v.selfv))]
     if isinstance(v, FunV) and v.kind == "class":
         m = I.modules.find_method(v.name, attr)
         if m is not None:
